@@ -110,6 +110,11 @@ CLAUSES = [
 ]  # fmt: skip
 
 MAX_VIOLATIONS_PER_CLAUSE = 5
+
+
+class ScriptedSchedulerError(Exception):
+    """raised on purpose by the scripted scheduler (exit path 'exception raised by the scheduler')"""
+
 _LAST_BOOK = None
 FLOAT_TEXT_RTOL = 1e-12
 NA_MARKERS = ["None", "NA", "", "nan", "NaN", "null", "NULL", "N/A", "n/a", "<NA>", "#N/A"]
@@ -578,8 +583,12 @@ def _make_classes(env):
             self.next = 0
             self.seen = defaultdict(int)
             self.to_resume = []
+            self.suggestions = 0
 
         def _suggest(self, trial_id):
+            if self.spec.get("raise_at_suggestion") == self.suggestions:
+                raise ScriptedSchedulerError("scripted: suggest call %d" % self.suggestions)
+            self.suggestions += 1
             if self.to_resume:
                 tid, cfg = self.to_resume.pop(0)
                 return TrialSuggestion.resume_suggestion(tid, None if cfg is None else dict(cfg))
@@ -593,6 +602,8 @@ def _make_classes(env):
             tid = trial.trial_id
             k = self.seen[tid]
             self.seen[tid] += 1
+            if self.spec.get("raise_at_result") == (tid, k):
+                raise ScriptedSchedulerError("scripted: result %d of trial %d" % (k, tid))
             script = self.spec["trials"][tid]
             decision = script.get("decisions", {}).get(k, SchedulerDecision.CONTINUE)
             if decision == SchedulerDecision.PAUSE and k in script.get("resume", {}):
@@ -720,15 +731,25 @@ def _run_tuner(book, env, classes, root, spec, scheduler=None, producer=None, st
     err = None
     with _quiet() as out:
         try:
-            tuner = Tuner(trial_backend=backend, scheduler=scheduler, stop_criterion=stop, n_workers=spec.get("n_workers", 2), sleep_time=0.0, results_update_interval=interval, print_update_interval=1e6, max_failures=1000, tuner_name=name, suffix_tuner_name=False, save_tuner=False, callbacks=[store, Probe(book, run)])
+            tuner = Tuner(trial_backend=backend, scheduler=scheduler, stop_criterion=stop, n_workers=spec.get("n_workers", 2), sleep_time=0.0, results_update_interval=interval, print_update_interval=1e6, max_failures=spec.get("max_failures", 1000), tuner_name=name, suffix_tuner_name=False, save_tuner=False, callbacks=[store, Probe(book, run)])
             run["csv"] = str(tuner.tuner_path / env["ST_RESULTS_DATAFRAME_FILENAME"])
             tuner.run()
         except Exception as e:
             err = e
     where = spec["id"]
-    book.check(C_NOERR, err is None, where=where, call="Tuner.run", raised=repr(err)[:300])
-    if err is not None:
+    # exit paths of Tuner.run: stop criterion met / search space exhausted (no exception), abort because more than
+    # max_failures trials failed (ValueError from the clean-up block), an exception raised by the scheduler (re-raised).
+    # Whether the two latter end in an exception is left open; any OTHER exception is an error of the run.
+    expected = ()
+    if "max_failures" in spec:
+        expected += (ValueError,)
+    if "raise_at_result" in spec or "raise_at_suggestion" in spec:
+        expected += (ScriptedSchedulerError,)
+    book.check(C_NOERR, err is None or isinstance(err, expected), where=where, call="Tuner.run", raised=repr(err)[:300])
+    if err is not None and not isinstance(err, expected):
         return run
+    run["exit"] = "normal" if err is None else type(err).__name__
+    loop_broken = isinstance(err, ScriptedSchedulerError)  # the tuning status of the interrupted iteration is not final
     log = store.results
     deliveries = run["deliveries"]
     # the log after the run: one row per delivery, in order; earlier rows were never touched again
@@ -737,12 +758,13 @@ def _run_tuner(book, env, classes, root, spec, scheduler=None, producer=None, st
         book.check(C_EARLIER, len(log) >= len(run["snapshots"]) and all(_same(a, b) for a, b in zip(log, run["snapshots"])), where=where)
     if backend.handed:
         book.check(C_HANDED, all(_same(o, c) for o, (_, c) in zip(backend.handed_objects, backend.handed)), where=where, first_altered=next((o for o, (_, c) in zip(backend.handed_objects, backend.handed) if not _same(o, c)), None))
-    _check_status(book, tuner.tuning_status, backend.handed, where + "/end")
-    _check_tuner_best(book, run, tuner, where + "/end")
-    # end-of-run summary printed by Tuner.run
     names, modes = run["metrics"], run["modes"]
+    if not loop_broken:
+        _check_status(book, tuner.tuning_status, backend.handed, where + "/end")
+        _check_tuner_best(book, run, tuner, where + "/end")
+    # end-of-run summary printed by Tuner.run
     opt, trials = _attaining(backend.handed, names[0], _mode_of(names, modes, 0))
-    if opt is not None:
+    if opt is not None and not loop_broken:
         found = [m for m in SUMMARY_RE.findall(out.getvalue()) if m[0] == names[0]]
         ok = False
         if found:
@@ -862,14 +884,27 @@ def _shape(shape, rng):
             for k, r in enumerate(t["results"]):
                 r["phase"] = ["warmup", "train", "diverged"][k]
         return tr
+    if shape == "abort-too-many-failures":  # max_failures=1: results delivered before, between and after the failures
+        return [T(0, 2), T(1, 1, fail=True), T(2, 3), T(3, 0, fail=True), T(4, 2), T(5, 2)]
+    if shape == "abort-at-first-failure":  # max_failures=0
+        return [T(0, 3), T(1, 2, fail=True), T(2, 2), T(3, 1)]
+    if shape in ("scheduler-raises-on-result", "scheduler-raises-in-suggest"):
+        return [T(0, 2), T(1, 3), T(2, 2), T(3, 2), T(4, 1)]
     raise ValueError(shape)
 
 
+EXIT_SHAPES = {
+    "abort-too-many-failures": {"max_failures": 1},
+    "abort-at-first-failure": {"max_failures": 0},
+    "scheduler-raises-on-result": {"raise_at_result": (1, 1)},
+    "scheduler-raises-in-suggest": {"raise_at_suggestion": 3},
+}
 SHAPES = [
     "plain-designed", "plain", "fails-without-results", "fails-after-results", "stop", "pause-resume-changed-config",
     "pause-resume-same-config", "pause-for-good", "nan-values", "nan-first-overall", "late-and-missing-metrics",
     "equal-optima", "one-result", "no-result-at-all", "tuner-time-from-backend", "stop-criterion-leaves-trials-running",
     "text-column-and-integer-metrics",
+    "abort-too-many-failures", "abort-at-first-failure", "scheduler-raises-on-result", "scheduler-raises-in-suggest",
 ]  # fmt: skip
 WORKERS = [1, 2, 3]
 BURSTS = [[1], [2], [1, 3]]
@@ -924,14 +959,25 @@ def _tuner_catalogue(tier, seed):
             spec = {"id": "A%d/%s/w%d-b%d-i%d" % (n, shape, WORKERS[w], b, iv), "metrics": names, "modes": modes, "trials": _shape(shape, rng), "n_workers": WORKERS[w], "burst": BURSTS[b], "interval": INTERVALS[iv][0], "jumps": INTERVALS[iv][1]}
             if shape == "stop-criterion-leaves-trials-running":
                 spec["stop_after_finished"] = 2
+            spec.update(EXIT_SHAPES.get(shape, {}))
             spec["mid_run_best"] = ci % (3 if tier == "quick" else 9) == 0
             specs.append(spec)
             n += 1
     rng = np.random.RandomState(7919 * seed + 11)
+    rng_exit = np.random.RandomState(6271 * seed + 29)
     for j in range(40 if tier == "quick" else 120):
         names, modes = METRIC_VARIANTS[int(rng.randint(len(METRIC_VARIANTS)))]
         iv = int(rng.randint(3))
         specs.append({"id": "A%d/random-script-%d" % (n, j), "metrics": names, "modes": modes, "trials": _random_script(rng), "n_workers": int(rng.randint(1, 4)), "burst": BURSTS[int(rng.randint(3))], "interval": INTERVALS[iv][0], "jumps": INTERVALS[iv][1], "mid_run_best": j % 4 == 0, "disk_steps": j % 2 == 0})
+        u = rng_exit.rand()
+        if u < 0.25:
+            specs[-1]["max_failures"] = int(rng_exit.randint(0, 2))  # may abort: more failed trials than allowed
+        elif u < 0.35:
+            specs[-1]["raise_at_suggestion"] = int(rng_exit.randint(1, 5))
+        elif u < 0.45:
+            specs[-1]["raise_at_result"] = (int(rng_exit.randint(0, 3)), int(rng_exit.randint(0, 3)))
+        elif u < 0.55:
+            specs[-1]["stop_after_finished"] = int(rng_exit.randint(1, 4))
         n += 1
     return specs
 
@@ -940,7 +986,7 @@ def _describe(spec):
     def cell(v):
         return "nan" if _is_nan(v) else v
 
-    return {"id": spec["id"], "metrics": spec["metrics"], "modes": spec["modes"], "n_workers": spec.get("n_workers"), "burst": spec.get("burst"), "interval": spec.get("interval"), "trials": [{"results": [{k: cell(v) for k, v in r.items() if k != "epoch"} for r in t["results"]][:3], "fail": t.get("fail", False), "decisions": {str(k): v for k, v in t.get("decisions", {}).items()}, "resumed_with_new_config": [str(k) for k, v in t.get("resume", {}).items() if v is not None]} for t in spec["trials"][:3]]}
+    return {"id": spec["id"], "metrics": spec["metrics"], "modes": spec["modes"], "n_workers": spec.get("n_workers"), "burst": spec.get("burst"), "interval": spec.get("interval"), "max_failures": spec.get("max_failures"), "scheduler_raises": spec.get("raise_at_result") or spec.get("raise_at_suggestion"), "trials": [{"results": [{k: cell(v) for k, v in r.items() if k != "epoch"} for r in t["results"]][:3], "fail": t.get("fail", False), "decisions": {str(k): v for k, v in t.get("decisions", {}).items()}, "resumed_with_new_config": [str(k) for k, v in t.get("resume", {}).items() if v is not None]} for t in spec["trials"][:3]]}
 
 
 # ---- shipped schedulers -----------------------------------------------------------------------------------------
@@ -1232,8 +1278,11 @@ def monitor_results(tier="quick", seed=0):
         config_space = {"lr": env["uniform"](0.0, 1.0), "width": env["randint"](1, 200), "act": env["choice"](ACTS)}
         # Part A
         specs = _tuner_catalogue(tier, seed)
+        exits = Counter()
         for spec in specs:
-            _run_tuner(book, env, classes, root, spec, config_space=config_space)
+            run = _run_tuner(book, env, classes, root, spec, config_space=config_space)
+            late = len(run["deliveries"]) > 0 and spec.get("interval") == INTERVALS[0][0]  # rows that only on_tuning_end can write
+            exits[(run.get("exit"), "criterion" if "stop_after_finished" in spec else "exhausted" if run.get("exit") == "normal" else "", late)] += 1
         shipped, changed = _shipped_runs(book, env, classes, root, tier, seed)
         # Part B
         tables = _enumerated_tables(tier) + _special_tables() + _random_tables(tier, seed)
@@ -1258,10 +1307,14 @@ def monitor_results(tier="quick", seed=0):
     _LAST_BOOK = book
     if changed == 0 and not book.viol:
         raise RuntimeError("c17 monitor: no shipped-scheduler run resumed a trial with a changed configuration")
+    paths = {"abort by failures": ("ValueError", "", True), "exception raised by the scheduler": ("ScriptedSchedulerError", "", True), "search space exhausted": ("normal", "exhausted", True), "stop criterion met": ("normal", "criterion", True)}
+    unseen = [k for k, v in paths.items() if exits[v] == 0]
+    if unseen and not book.viol:
+        raise RuntimeError("c17 monitor: exit paths of Tuner.run never taken with rows left to be written at the end: %s" % unseen)
     empty = [c for c in CLAUSES if book.per[c] == 0]
     if empty:
         raise RuntimeError("c17 monitor: clauses without a single check: %s" % empty)
     distinct = len(specs) + len(shipped) + len(tables) + len(marker_tables) + n_nmm
-    summary = "%d real Tuner runs on an in-memory back end (%d scripted: %d shapes x workers {1,2,3} x burst {1,2,1/3} x update interval {never, 5 s, 0 s elapsed under a controlled clock} + random scripts of <= 5 trials x <= 4 results; %d with shipped schedulers FIFO / Hyperband stopping+promotion / MOASHA / PBT, <= 12 trials x 4 epochs), %d tables driven through StoreResultsCallback + TuningStatus (all cell sequences of length <= %d over {low, high, NaN, missing} x 2 metrics, + random tables <= 4 trials x <= 4 results x 3 metrics), %d text values spelled like missing-value markers, %d metric_name_mode queries; 1-3 metrics, modes as string or list" % (
+    summary = "%d real Tuner runs on an in-memory back end (%d scripted: %d shapes x workers {1,2,3} x burst {1,2,1/3} x update interval {never, 5 s, 0 s elapsed under a controlled clock} + random scripts of <= 5 trials x <= 4 results; every exit path of Tuner.run: space exhausted, criterion met, abort by > max_failures failed trials, exception raised by the scheduler in on_trial_result / suggest; %d with shipped schedulers FIFO / Hyperband stopping+promotion / MOASHA / PBT, <= 12 trials x 4 epochs), %d tables driven through StoreResultsCallback + TuningStatus (all cell sequences of length <= %d over {low, high, NaN, missing} x 2 metrics, + random tables <= 4 trials x <= 4 results x 3 metrics), %d text values spelled like missing-value markers, %d metric_name_mode queries; 1-3 metrics, modes as string or list" % (
         len(specs) + len(shipped), len(specs), len(SHAPES), len(shipped), len(tables), 4 if tier == "quick" else 5, len(marker_tables), n_nmm)  # fmt: skip
     return {"evaluations": book.n, "distinct": distinct, "clauses": list(CLAUSES), "violations": book.viol, "samples": samples[:4], "summary": summary}
